@@ -51,6 +51,7 @@ ExplainDec(e) ==
    ELSE IF e.obs.reErr \/ e.obs.reBytes # e.bytes THEN No("C04: re-encoding does not reproduce the reference bytes")
    ELSE Ok
 Explain(e) == CASE e.ev = "Dec" -> ExplainDec(e)
+                [] e.ev = "Held" -> HeldVerdict(e)
                 [] OTHER -> No("no action of the specification matches this event")
 
 Init == l = 1 /\ bad = 0
